@@ -459,6 +459,51 @@ func c11TypedReads(r *mon.Run) {
 		}
 		r.Distinct("typed-read|" + a.name + "|" + a.v.Name)
 	}
+	// the legacy package-level twins: required masks are efi.ValidAttributes
+	type lacc struct {
+		name string
+		call func() (*signature.SignatureDatabase, error)
+	}
+	for _, a := range []lacc{{"PK", efi.GetPK}, {"KEK", efi.GetKEK}, {"db", efi.Getdb}, {"dbx", efi.Getdbx}} {
+		req := uint32(efi.ValidAttributes[a.name])
+		g := attributes.EFI_GLOBAL_VARIABLE
+		if attributes.ImageSecurityDatabases[a.name] {
+			g = attributes.EFI_IMAGE_SECURITY_DATABASE_GUID
+		}
+		masks := []uint32{req, req | 0x40, req | 0x08, req | 0x80 | 0x10}
+		for b := uint(0); b < 8; b++ {
+			if req&(1<<b) != 0 {
+				masks = append(masks, req&^(1<<b), (req&^(1<<b))|0x40)
+			}
+		}
+		masks = append(masks, 0)
+		for _, m := range masks {
+			mem := afero.NewMemMapFs()
+			mem.MkdirAll(efivarsDir, 0o755)
+			afero.WriteFile(mem, varPath(a.name, fromLib(g).Text()), withAttrs(m, dbBytes), 0o644)
+			efifs.SetFS(mem)
+			var db *signature.SignatureDatabase
+			var err error
+			replay := map[string]any{"accessor": "efi.Get" + a.name, "stored_mask": m, "required": req}
+			if p := tryP(func() { db, err = a.call() }); p != "" {
+				r.Violation("C11|typed-read|panic|legacy-"+a.name, p, replay)
+				continue
+			}
+			r.Eval(1)
+			lacking := req&^m != 0
+			switch {
+			case lacking && err == nil:
+				r.Violation("C11|typed-read|missing-attribute-not-reported|legacy", fmt.Sprintf("efi.Get%s: stored mask %#x lacks required %#x but the accessor returned a database and no error", a.name, m, req), replay)
+			case !lacking && (err != nil || db == nil || !bytes.Equal(db.Bytes(), dbBytes)):
+				r.Violation("C11|typed-read|valid-read-failed|legacy", fmt.Sprintf("efi.Get%s: stored mask %#x ⊇ required %#x but the accessor failed or returned other content: %v", a.name, m, req, err), replay)
+			case lacking:
+				r.Count("typed_reads_wrong_attributes_rejected", 1)
+			default:
+				r.Count("typed_reads_ok", 1)
+			}
+		}
+		r.Distinct("typed-read|legacy|" + a.name)
+	}
 }
 
 // c11Typed drives the typed accessors and the legacy efi.* twins once per definition.
